@@ -198,6 +198,17 @@ def nontrivial_value(v, text):
 
 FORMS = {'var': 'var n = %s;', 'assign': 'n = %s;', 'function': 'function f() { var n = %s; }',
          'function_assign': 'function f() { n = %s; }'}
+# the binding statement among other statements that concern the same name (the literal is the last thing bound to
+# it, by JavaScript's rules and by reading order alike): used for a sample of the values
+CONTEXT_FORMS = {'var_after_function_of_that_name': 'function n() {} var n = %s;', 'var_then_assign': 'var n; n = %s;',
+                 'var_reassigned': 'var n = 1; n = %s;', 'var_redeclared': 'var n = [0]; var n = %s;',
+                 'assign_reassigned': 'n = {"old": 1}; n = %s;', 'var_after_empty_statements': ';;var n = %s;',
+                 'var_then_empty': 'var n = %s; ;', 'var_chained': 'var n = n = %s;', 'var_parenthesised': 'var n = (%s);',
+                 'assign_parenthesised': 'n = (%s);',
+                 'function_var_after_function_of_that_name': 'function f() { function n() {} var n = %s; }',
+                 'function_var_then_assign': 'function f() { var n; n = %s; }'}
+FORMS.update(CONTEXT_FORMS)
+BASE_FORMS = ['var', 'assign', 'function', 'function_assign']
 
 
 class Hits(object):
@@ -246,7 +257,7 @@ def check(ctx, jtext, form, fold):
     ctx.case((jtext, form, fold), nt, sample={'json': jtext[:120], 'form': form, 'fold_ops': fold}
              if (nt and ctx.rng.random() < 0.0008) else None)
     ctx.count('type:' + type(expected).__name__)
-    v = judge('function' if form.startswith('function') else form, result, expected)
+    v = judge('function' if form.startswith('function') else 'var', result, expected)
     if v:
         ctx.violation(v[0], {'json': jtext, 'form': form, 'fold_ops': fold}, '%s\nsource: %r' % (v[1], src[:300]))
 
@@ -274,7 +285,7 @@ def run(ctx):
         for i in range(n):
             ws = [''] if i % 3 == 0 else WS
             j = gen_value(ctx, rng, rng.randint(0, 6), ws)
-            forms = list(FORMS) if i % 4 == 0 else [list(FORMS)[i % len(FORMS)], 'var']
+            forms = list(BASE_FORMS) if i % 4 == 0 else [BASE_FORMS[i % len(BASE_FORMS)], 'var', sorted(CONTEXT_FORMS)[i % len(CONTEXT_FORMS)]]
             for form in forms:
                 for fold in (False, True):
                     check(ctx, j, form, fold)
@@ -285,7 +296,7 @@ def run(ctx):
         for k, jtext in enumerate(wide_values(random.Random(ctx.seed * 31 + 5))):
             if k % ctx.nshards == ctx.shard:
                 ctx.hit('wide_value')
-                for form in FORMS:
+                for form in BASE_FORMS:
                     for fold in (False, True):
                         check(ctx, jtext, form, fold)
         # every such word as the value, as an element, as a member value and as a key
@@ -295,13 +306,13 @@ def run(ctx):
                 q = json.dumps(word)
                 for jtext in (q, '[%s]' % q, '[1, %s, %s]' % (q, q), '{"k": %s}' % q, '{%s: 1}' % q, '{%s: %s}' % (q, q),
                               '{"a": {%s: [%s]}}' % (q, q)):
-                    for form in FORMS:
+                    for form in BASE_FORMS:
                         for fold in (False, True):
                             check(ctx, jtext, form, fold)
         # every number spelling and every escape on its own
         for k, num in enumerate(NUMBERS):
             if k % ctx.nshards == ctx.shard:
-                for form in FORMS:
+                for form in BASE_FORMS:
                     for fold in (False, True):
                         check(ctx, num, form, fold)
                         check(ctx, '[%s]' % num, form, fold)
